@@ -27,7 +27,8 @@ RULE = ("hostile strings: token soups over the ACL vocabulary (keywords, operato
         "non-ASCII digits, very long lines (to 4 KB), multi-line bodies with random, zig-zag and deepening indentation, comment "
         "lines; given to Ace, Remark, AceGroup, Acl, Address, AddressAg, AddrGroup, Port, Protocol, Option, Wildcard and to "
         "acls/aces/addrgroups on ios, nxos and asa. judged = calls classified (returned + re-accepted / documented error); "
-        "distinct non-trivial = (class, platform, generator kind, outcome, exception type)")
+        "distinct non-trivial = (class, platform, generator kind, outcome, exception type)"
+        " Round 4: every documented spelling of the platform argument; group-object cycles used by an ACE.")
 ASSUMPTIONS = ["documented errors are ValueError and TypeError with their subclasses (AddressValueError, NetmaskValueError, "
                "NetportsValueError)", "CPU budget 5 s per case for inputs <= 4 KB, 20 s hard limit by RLIMIT_CPU",
                "state after a raising call is not judged"]
